@@ -81,13 +81,14 @@ var vGenUncompressed = []byte{0x04,
 
 // C03(4): the persisted form of an output reports the same script: pay-to-pubkey scripts with a compressed or
 // uncompressed key, where the key is a real curve point, has the other parity, or has an X on the curve but a Y
-// that is not the matching one (1-byte change): serialize then deserialize returns exactly the original script,
+// that is not the matching one (1-byte change), hybrid-encoded keys, and scripts that have the frame of a
+// pay-to-script-hash / pay-to-pubkey-hash template around any push opcode: serialize then deserialize returns exactly the original script,
 // amount, height and coinbase flag.  (Curve membership is decided exactly for these concrete keys.)
 //verif:opts reach=end
 func VH_persisted_pubkey_script_faithful() {
 	key := append([]byte{}, vGenUncompressed...)
 	var script []byte
-	switch vNondetLen("form", 3) {
+	switch vNondetLen("form", 6) {
 	case 0: // uncompressed, valid
 		script = append(append([]byte{0x41}, key...), 0xac)
 	case 1: // uncompressed, X valid, Y altered in one byte
@@ -96,8 +97,16 @@ func VH_persisted_pubkey_script_faithful() {
 	case 2: // uncompressed, Y negated wrongly: the other root's last byte only
 		key[64] ^= 0x01
 		script = append(append([]byte{0x41}, key...), 0xac)
-	default: // compressed, either parity byte
+	case 3: // compressed, either parity byte
 		script = append(append([]byte{0x21, 0x02 + byte(vNondetLen("parity", 1))}, key[1:33]...), 0xac)
+	case 4: // hybrid encoding of the same point (0x06: matching oddness, a valid key; 0x07: the wrong oddness): a
+		// parseable key but not one of the compressible templates
+		key[0] = 0x06 + byte(vNondetLen("oddness", 1))
+		script = append(append([]byte{0x41}, key...), 0xac)
+	case 5: // 23 bytes with the pay-to-script-hash frame but any push opcode in between
+		script = append(append([]byte{0xa9, vNondetU8("push")}, key[1:21]...), 0x87)
+	default: // 25 bytes with the pay-to-pubkey-hash frame but any push opcode in between
+		script = append(append([]byte{0x76, 0xa9, vNondetU8("push")}, key[1:21]...), 0x88, 0xac)
 	}
 	c := vMkCoin("coin")
 	e := vEntryOf(c)
